@@ -40,7 +40,7 @@ type pair struct {
 	units    [4]*batch.UnitInfo
 	oldS     *idlgen.Schema
 	newS     *idlgen.Schema
-	fixed    bool // the catalogue pair
+	fixed    int  // 1, 2: the catalogue pairs; 0: random
 }
 
 const unionKey = "keep_unknown_fields: union carrying an unknown member cannot be re-written|old: union U {1: i32 a}|new: union U {1: i32 a, 2: string b}|value: U{b:\"hi\"}|bytes 0b000200000002686900"
@@ -300,7 +300,10 @@ func runPairs(repo, work string, r *vl.Rng, npairs, nvalues int, out *vl.Out) (*
 		p := &pair{idx: i}
 		if i == 0 {
 			p.old, p.new = cataloguePair()
-			p.fixed = true
+			p.fixed = 1
+		} else if i == 1 {
+			p.old, p.new = cataloguePair2()
+			p.fixed = 2
 		} else {
 			p.old = idlgen.Generate(r, cfg)
 			addHolders(r, p.old, out.Count)
@@ -389,7 +392,9 @@ func runPairs(repo, work string, r *vl.Rng, npairs, nvalues int, out *vl.Out) (*
 			}
 			nv := nvalues
 			var vals []*values.Value
-			if p.fixed {
+			if p.fixed == 2 {
+				vals = catalogue2Values(st.Name)
+			} else if p.fixed == 1 {
 				el := func(k, w int64, tag string, dims ...int64) *values.Value {
 					d := values.List()
 					for _, x := range dims {
@@ -477,7 +482,7 @@ func runPairs(repo, work string, r *vl.Rng, npairs, nvalues int, out *vl.Out) (*
 			out.Count("b.value.union-unknown-member")
 		}
 		picks := [][]int{chainPool[0], chainPool[3+r.Intn(3)], chainPool[r.Intn(len(chainPool))]}
-		if w.p.fixed {
+		if w.p.fixed != 0 {
 			picks = chainPool
 		}
 		first := true
